@@ -8,7 +8,7 @@ import (
 
 // toSizedDeltas <-> fromSizedDeltas on arbitrary 32-bit values (not assumed sorted: deltas wrap).
 func H_C09_deltas32() {
-	n := verifrt.Concretize(verifrt.IntRange("n", 0, verifrt.Param("n", 2, 4)))
+	n := verifrt.Concretize(verifrt.IntRange("n", 0, verifrt.Param("n", 2, 3)))
 	xs := make([]uint32, n)
 	for i := range xs {
 		xs[i] = verifrt.U32("x")
@@ -30,7 +30,7 @@ func H_C09_deltas32() {
 }
 
 func H_C09_deltas16() {
-	n := verifrt.Concretize(verifrt.IntRange("n", 0, verifrt.Param("n", 3, 5)))
+	n := verifrt.Concretize(verifrt.IntRange("n", 0, verifrt.Param("n", 3, 4)))
 	xs := make([]uint16, n)
 	for i := range xs {
 		xs[i] = verifrt.U16("x")
@@ -84,7 +84,7 @@ func c09PutUvarint(buf []byte, x uint64) int {
 
 // marshalDocSections <-> unmarshalDocSections.
 func H_C09_docSections() {
-	n := verifrt.Concretize(verifrt.IntRange("n", 0, verifrt.Param("n", 1, 2)))
+	n := verifrt.Concretize(verifrt.IntRange("n", 0, verifrt.Param("n", 1, 1)))
 	secs := make([]DocumentSection, n)
 	for i := range secs {
 		secs[i] = DocumentSection{Start: verifrt.U32("start"), End: verifrt.U32("end")}
